@@ -164,6 +164,21 @@ register("C13",
     "Trusted: the interpreter; logging macros abstracted away; clang CFG.",
     "symbolic interpretation (rational identities) + CFG argmin / coverage rules",
     "DESIGN.md §5 C13")
+register("C20",
+    "Decides the structural sources of irreproducibility, for every function of the five libraries: no ordering predicate compares object "
+    "addresses except as a last resort after data keys (50 predicates), no order-observing use of a container ordered by raw or shared "
+    "pointers, no default sort / min / max over pointers and no pointer-keyed unordered container outside the reviewed sites whose order "
+    "provably cannot reach a result (tables/ptr_order_reviewed.json, each with its reason; sites where it could were repaired, §6); no "
+    "clock / random source outside logging and progress timing; the layout's pseudo-random generator is a pure seeded LCG; equal-slack "
+    "constraints are ordered by ids; mutable process-wide state and its writers are exactly the reviewed ones and the rectangle borders "
+    "are put back by every function that changes them; no constructor leaves a scalar member indeterminate; block positions are "
+    "translation-equivariant (symbolic); the x/y twins of rectangle accessors and the turn-pruning blocks of the A* search are mirror "
+    "images. Does not decide bit-identical results, rotation / permutation invariance of numerical results.",
+    "Trusted: the reviewed tables (reasons from allocator-perturbation and comparison-flip experiments recorded under replays/c20_ptr_order); "
+    "clang AST type information for container keys.",
+    "custom lints over the type-resolved AST (address-order comparators / containers / algorithms, nondeterminism sources, global state), "
+    "CFG pairing rule, constructor-initialisation dataflow, symbolic identity, mirror siblings",
+    "DESIGN.md §5 C20")
 register("C19",
     "Weak but exact coverage clauses of the decompositions: in dialect::peel every round turns all current leaves into stems, severs the "
     "same leaves, adds every stem (dropping only the mirror stem of a double-centre tree), takes the next leaves before re-testing, and "
